@@ -95,6 +95,8 @@ def prepare(chk, join='.'):
     S.check_layout(it.adts)
     it.merge_rx = re.compile(r'::tip_condition$')
     it.join_rx = re.compile(join) if join else None
+    from props import coincontract
+    coincontract.install(it)
     it.prefer_summary_rx = re.compile(r'Covenant::(from_bytes|execute)$|covenant_weight_from_bytes$|Value::into_bool$|'
                                       r'microergs_per_dosc$')
     return it
@@ -119,7 +121,7 @@ def install_coin_invariants(it, covhash_of):
         (ka, va), (kb, vb) = r1, r2
         if M.hash_domain_of(ka) == 'single:CoinID' and M.hash_domain_of(kb) == 'single:CoinID':
             ca, cb = va.data.value.fields[0], vb.data.value.fields[0]
-            both = z3.And(va.data.present, vb.data.present, ka != kb, M.val_eq(ca.fields[2], cb.fields[2]))
+            both = z3.And(va.data.present, vb.data.present, z3.Not(M.hash_eq(ka, kb)), M.val_eq(ca.fields[2], cb.fields[2]))
             tot = z3.ZeroExt(8, ca.fields[1].fields[0]) + z3.ZeroExt(8, cb.fields[1].fields[0])
             st.assume_fact(z3.Implies(both, z3.ULE(tot, z3.BitVecVal(1 << 127, 136))))
     it.base_single_hooks['coins'] = single
@@ -136,7 +138,7 @@ def supply_bound(st):
         tot = z3.BitVecVal(0, 136)
         for j, (kj, vj) in enumerate(coins):
             cj = vj.data.value.fields[0]
-            distinct = z3.And([kj != kk for kk, _ in coins[:j]]) if j else z3.BoolVal(True)
+            distinct = z3.And([z3.Not(M.hash_eq(kj, kk)) for kk, _ in coins[:j]]) if j else z3.BoolVal(True)
             tot = tot + z3.If(z3.And(vj.data.present, distinct, M.val_eq(cj.fields[2], di)),
                               z3.ZeroExt(8, cj.fields[1].fields[0]), z3.BitVecVal(0, 136))
         conj.append(z3.ULE(tot, z3.BitVecVal(1 << 127, 136)))
@@ -145,7 +147,7 @@ def supply_bound(st):
     for (kc, vc) in counts:
         n = z3.BitVecVal(0, 64)
         for j, (kj, vj) in enumerate(coins):
-            distinct = z3.And([kj != kk for kk, _ in coins[:j]]) if j else z3.BoolVal(True)
+            distinct = z3.And([z3.Not(M.hash_eq(kj, kk)) for kk, _ in coins[:j]]) if j else z3.BoolVal(True)
             n = n + z3.If(z3.And(vj.data.present, distinct, cdh_covhash(vj.data.value) == kc.arg(0)),
                           z3.BitVecVal(1, 64), z3.BitVecVal(0, 64))
         conj.append(z3.UGE(z3.If(vc.data.present, vc.data.value, z3.BitVecVal(0, 64)), n))
@@ -157,9 +159,11 @@ def cdh_covhash(cdh):
 
 
 def run_batch(chk, it, shapes, kinds=None, exclude_kinds=('DoscMint',), entry='apply_tx_batch', stakes=None,
-              min_height=1):
+              min_height=1, orders=None, distinct_txs=True):
     """shapes: list of (n_in, n_out, n_cov) per transaction.  Executes UnsealedState::apply_tx_batch on an arbitrary
     state satisfying I-HIST / I-COUNT.  Returns a BatchRun."""
+    from mirsym.interp import G
+    G.reset()
     st = State()
     state, sterms = sym_state(st.pc, stakes=stakes)
     install_history_invariant(it, sterms['height'])
@@ -181,6 +185,11 @@ def run_batch(chk, it, shapes, kinds=None, exclude_kinds=('DoscMint',), entry='a
                 for o in tx.fields[2].fields]
         return z3.Or(occ) if occ else z3.BoolVal(False)
     n = len(txs)
+    if distinct_txs:
+        for i in range(n):
+            for j in range(i + 1, n):
+                if txs[i] is not txs[j]:
+                    G.declare_distinct(hs[i], hs[j])
     dep = [[mentions(txs[i], hs[j]) for j in range(n)] for i in range(n)]
     for i in range(n):
         st.pc.append(z3.Not(dep[i][i]))
@@ -208,7 +217,17 @@ def run_batch(chk, it, shapes, kinds=None, exclude_kinds=('DoscMint',), entry='a
     r = BatchRun()
     r.state0, r.sterms, r.txs, r.tterms, r.scell = state, sterms, txs, tterms, scell
     r.pc0 = list(st.pc)
-    r.outs = it.exec_fn(st, fn, [Ptr(scell), Ptr(bcell)])
+    r.st0 = st.fork()
+    if orders:
+        # the same symbolic transactions presented in several orders, each from the same initial state
+        r.order_outs = []
+        for order in orders:
+            s2 = st.fork()
+            s2.heap[bcell] = Agg('array', [txs[i] for i in order])
+            r.order_outs.append(it.exec_fn(s2, fn, [Ptr(scell), Ptr(bcell)]))
+        r.outs = r.order_outs[0]
+    else:
+        r.outs = it.exec_fn(st, fn, [Ptr(scell), Ptr(bcell)])
     r.inputs = dict(('st_' + k, v) for k, v in sterms.items())
     for i, tt in enumerate(tterms):
         for k, v in tt.items():
@@ -235,11 +254,81 @@ def coin_lookup(it, st, tm, txh, idx):
     return b.data.present, b.data.value
 
 
-def abstract_base_fee(it):
-    """over-approximation for properties that do not depend on the fee arithmetic: Transaction::base_fee returns an
-    arbitrary CoinValue (C05 runs the real code)"""
-    from mirsym.interp import fresh
+MINFEE = z3.Function('abstract_min_fee', z3.BitVecSort(256), z3.BitVecSort(128), z3.BitVecSort(128))
 
+
+def abstract_base_fee(it):
+    """over-approximation for properties that do not depend on the fee arithmetic: Transaction::base_fee is an
+    arbitrary function of (transaction, fee multiplier)  (C05 runs the real code)"""
     def f(itp, st, args, ctx):
-        return S.coinvalue(fresh('min_fee', z3.BitVecSort(128)))
+        tx = args[0]
+        while isinstance(tx, Ptr):
+            tx = itp.load(st, tx)
+        ident = M.hash_apply(st, 'txidentity', M.flatten(tx))
+        return S.coinvalue(MINFEE(ident, args[1]))
     it.overrides = [o for o in it.overrides if o[0].pattern != r'Transaction::base_fee'] + [(re.compile(r'Transaction::base_fee'), f)]
+
+
+def combine(it, sa, sb):
+    """a state for comparing two outcomes of runs that started from the same initial state: the path conditions of
+    both (facts about the shared initial state are global)"""
+    sm = sa.fork()
+    seen = set(id(c) for c in sm.pc)
+    for c in sb.pc:
+        if id(c) not in seen:
+            sm.pc.append(c)
+            seen.add(id(c))
+    sm.models = []
+    for k, v in sb.notes.items():
+        if k not in sm.notes:
+            sm.notes[k] = v
+        elif isinstance(v, tuple) and isinstance(sm.notes[k], tuple):
+            cur = list(sm.notes[k])
+            for item in v:
+                if not any(item is x or (isinstance(item, tuple) and isinstance(x, tuple) and hasattr(item[0], 'eq')
+                                         and hasattr(x[0], 'eq') and item[0].eq(x[0])) for x in cur):
+                    cur.append(item)
+            sm.notes[k] = tuple(cur)
+    return sm
+
+
+def map_extensional_eq(ma, mb):
+    from mirsym.collections import map_lookup
+    keys = []
+    for k, _, _ in ma.entries + mb.entries:
+        keys.append(k)
+    conj = []
+    for k in keys:
+        fa, va = map_lookup(ma, k)
+        fb, vb = map_lookup(mb, k)
+        c = [fa == fb]
+        if va is not None and vb is not None:
+            c.append(z3.Implies(fa, M.val_eq(va, vb)))
+        elif va is None and vb is not None:
+            c.append(z3.Not(fb))
+        elif vb is None and va is not None:
+            c.append(z3.Not(fa))
+        conj.append(z3.And(c))
+    return z3.And(conj) if conj else z3.BoolVal(True)
+
+
+def states_equal_parts(it, sm, ua, ub):
+    """observable equality of two UnsealedState values over the same initial trees, as separately dischargeable parts"""
+    parts = [('scalars', M.val_eq(Agg('t', [ua.fields[i] for i in (0, 1, 5, 6, 7, 8)]),
+                                  Agg('t', [ub.fields[i] for i in (0, 1, 5, 6, 7, 8)])))]
+    for idx, nm in ((2, 'history'), (3, 'coins'), (9, 'pools')):
+        ta, tb = ua.fields[idx].fields[0].data, ub.fields[idx].fields[0].data
+        keys = []
+        for k, _, _g in ta.entries + tb.entries:
+            if not any(k.eq(k2) for k2 in keys):
+                keys.append(k)
+        for n, k in enumerate(keys):
+            va, vb = M.tree_get(it, sm, ta, k), M.tree_get(it, sm, tb, k)
+            parts.append(('%s[key%d]' % (nm, n), M.bytes_eq(va, vb)))
+    parts.append(('transactions', map_extensional_eq(ua.fields[4].fields[0].data, ub.fields[4].fields[0].data)))
+    parts.append(('stakes', map_extensional_eq(ua.fields[10].fields[0].data, ub.fields[10].fields[0].data)))
+    return parts
+
+
+def states_equal(it, sm, ua, ub):
+    return z3.And([p for _, p in states_equal_parts(it, sm, ua, ub)])
